@@ -835,4 +835,165 @@ theorem mpf_get_d_2exp_spec (f : F) (hf : f.wf) (hnz : f.size ≠ 0) (hsz : f.d.
 
 example : mpf_get_d_2exp ⟨2, 1, [2 ^ 63, 1]⟩ = (0x3FE8000000000000, 1) ∧ mpf_get_d_2exp ⟨-1, -3, [5]⟩ = (0xBFE4000000000000, -253) := by decide
 
+/-! ## 8. mpf comparisons -/
+
+/-- mpf_cmp_spec.  An mpf is the exact number F.mant · B^F.lowExp (signed integer mantissa, limb exponent of the
+    lowest limb).  For all well-formed operands — any precisions, sizes, exponents, low zero limbs allowed —
+    the sign of mpf_cmp u v is the sign of the exact difference u - v, written with integers by scaling both
+    numbers with B^(-min of the two low exponents).  So mpf_cmp is a total order consistent with the values. -/
+theorem mpf_cmp_spec (u v : F) (hu : u.wf) (hv : v.wf) :
+    sgn (mpf_cmp u v) =
+      sgn (u.mant * ((B ^ (u.lowExp - min u.lowExp v.lowExp).toNat : Nat) : Int)
+         - v.mant * ((B ^ (v.lowExp - min u.lowExp v.lowExp).toNat : Nat) : Int)) := by
+  obtain ⟨u0, u1, u2⟩ := F.wf_bounds hu
+  obtain ⟨v0, v1, v2⟩ := F.wf_bounds hv
+  have hPA : (0 : Int) < ((B ^ (u.lowExp - min u.lowExp v.lowExp).toNat : Nat) : Int) := by exact_mod_cast Bpow_pos _
+  have hPB : (0 : Int) < ((B ^ (v.lowExp - min u.lowExp v.lowExp).toNat : Nat) : Int) := by exact_mod_cast Bpow_pos _
+  have hvu : (0 : Int) ≤ val u.d := by positivity
+  have hvv : (0 : Int) ≤ val v.d := by positivity
+  have upos : u.size ≠ 0 → (0 : Int) < val u.d := fun h => by
+    have := lt_of_lt_of_le (Bpow_pos _) (u1 h); exact_mod_cast this
+  have vpos : v.size ≠ 0 → (0 : Int) < val v.d := fun h => by
+    have := lt_of_lt_of_le (Bpow_pos _) (v1 h); exact_mod_cast this
+  unfold mpf_cmp
+  dsimp only
+  by_cases hs : (decide (u.size < 0) != decide (v.size < 0)) = true
+  · rw [if_pos hs]
+    have hs' : (u.size < 0 ∧ ¬ v.size < 0) ∨ (¬ u.size < 0 ∧ v.size < 0) := by
+      by_cases a : u.size < 0 <;> by_cases b : v.size < 0 <;> simp [a, b] at hs ⊢
+    unfold F.mant
+    rcases hs' with ⟨a, b⟩ | ⟨a, b⟩
+    · rw [if_neg (by omega), if_pos a, if_neg b]
+      have := upos (by omega)
+      exact sgn_eq_neg (by decide) (by nlinarith [mul_pos this hPA, mul_nonneg hvv (le_of_lt hPB)])
+    · rw [if_pos (by omega), if_neg a, if_pos b]
+      have := vpos (by omega)
+      exact sgn_eq_pos (by decide) (by nlinarith [mul_pos this hPB, mul_nonneg hvu (le_of_lt hPA)])
+  · rw [if_neg hs]
+    have same : (u.size < 0 ↔ v.size < 0) := by
+      by_cases a : u.size < 0 <;> by_cases b : v.size < 0 <;> simp [a, b] at hs ⊢
+    by_cases hu0 : u.size = 0
+    · rw [if_pos hu0]
+      have hm : u.mant = 0 := by unfold F.mant; rw [u0 hu0]; simp
+      rw [hm, zero_mul, zero_sub]
+      have vn : ¬ v.size < 0 := fun h => by have := same.mpr h; omega
+      unfold F.mant; rw [if_neg vn]
+      by_cases hv0 : v.size = 0
+      · rw [if_neg (by simpa using hv0), v0 hv0]; simp
+      · rw [if_pos hv0]
+        exact sgn_eq_neg (by decide) (by nlinarith [mul_pos (vpos hv0) hPB])
+    · rw [if_neg hu0]
+      by_cases hv0 : v.size = 0
+      · rw [if_pos hv0, if_pos hu0]
+        have un : ¬ u.size < 0 := fun h => by have := same.mp h; omega
+        have hm : v.mant = 0 := by unfold F.mant; rw [v0 hv0]; simp
+        rw [hm, zero_mul, sub_zero]
+        unfold F.mant; rw [if_neg un]
+        exact sgn_eq_pos (by decide) (mul_pos (upos hu0) hPA)
+      · rw [if_neg hv0]
+        -- same sign, both non-zero: everything is usign·(|u| - |v|)
+        generalize hsg : (if u.size ≥ 0 then (1 : Int) else -1) = usign
+        have hsg' : usign = 1 ∨ usign = -1 := by rw [← hsg]; by_cases a : u.size ≥ 0 <;> simp [a]
+        have mu : u.mant = usign * val u.d := by
+          unfold F.mant; rw [← hsg]
+          by_cases a : u.size ≥ 0
+          · rw [if_neg (by omega), if_pos a]; ring
+          · rw [if_pos (by omega), if_neg a]; ring
+        have mv : v.mant = usign * val v.d := by
+          unfold F.mant; rw [← hsg]
+          by_cases a : u.size ≥ 0
+          · rw [if_neg (fun h => by have := same.mpr h; omega), if_pos a]; ring
+          · rw [if_pos (same.mp (by omega)), if_neg a]; ring
+        have goal_form : ∀ r : Int,
+            r = usign * sgn ((val u.d : Int) * ((B ^ (u.lowExp - min u.lowExp v.lowExp).toNat : Nat) : Int)
+              - (val v.d : Int) * ((B ^ (v.lowExp - min u.lowExp v.lowExp).toNat : Nat) : Int)) →
+            sgn r = sgn (u.mant * ((B ^ (u.lowExp - min u.lowExp v.lowExp).toNat : Nat) : Int)
+              - v.mant * ((B ^ (v.lowExp - min u.lowExp v.lowExp).toNat : Nat) : Int)) := by
+          intro r hr
+          rw [hr, sgn_usign_mul _ _ hsg', mu, mv]; congr 1; ring
+        apply goal_form
+        have ul := hu.1
+        have vl := hv.1
+        have unn : 1 ≤ u.size.natAbs := by omega
+        have vnn : 1 ≤ v.size.natAbs := by omega
+        have hu1 := u1 hu0
+        have hv1 := v1 hv0
+        by_cases g : u.exp > v.exp
+        · rw [if_pos g]
+          -- |u| ≥ B^(u.exp-1) ≥ B^v.exp > |v|
+          have hexp : v.size.natAbs + (v.lowExp - min u.lowExp v.lowExp).toNat ≤
+              (u.size.natAbs - 1) + (u.lowExp - min u.lowExp v.lowExp).toNat := by
+            unfold F.lowExp; omega
+          have h1 : val v.d * B ^ (v.lowExp - min u.lowExp v.lowExp).toNat <
+              val u.d * B ^ (u.lowExp - min u.lowExp v.lowExp).toNat := by
+            calc val v.d * B ^ (v.lowExp - min u.lowExp v.lowExp).toNat
+                < B ^ v.size.natAbs * B ^ (v.lowExp - min u.lowExp v.lowExp).toNat := Nat.mul_lt_mul_of_pos_right v2 (Bpow_pos _)
+              _ = B ^ (v.size.natAbs + (v.lowExp - min u.lowExp v.lowExp).toNat) := by rw [pow_add]
+              _ ≤ B ^ ((u.size.natAbs - 1) + (u.lowExp - min u.lowExp v.lowExp).toNat) := pow_le_pow_B hexp
+              _ = B ^ (u.size.natAbs - 1) * B ^ (u.lowExp - min u.lowExp v.lowExp).toNat := by rw [pow_add]
+              _ ≤ val u.d * B ^ (u.lowExp - min u.lowExp v.lowExp).toNat := Nat.mul_le_mul_right _ hu1
+          have h2 : (0 : Int) < (val u.d : Int) * ((B ^ (u.lowExp - min u.lowExp v.lowExp).toNat : Nat) : Int)
+              - (val v.d : Int) * ((B ^ (v.lowExp - min u.lowExp v.lowExp).toNat : Nat) : Int) := by
+            have : ((val v.d * B ^ (v.lowExp - min u.lowExp v.lowExp).toNat : Nat) : Int) <
+                ((val u.d * B ^ (u.lowExp - min u.lowExp v.lowExp).toNat : Nat) : Int) := by exact_mod_cast h1
+            push_cast at this ⊢; linarith
+          rw [sgn_pos h2, mul_one]
+        · rw [if_neg g]
+          by_cases g2 : u.exp < v.exp
+          · rw [if_pos g2]
+            have hexp : u.size.natAbs + (u.lowExp - min u.lowExp v.lowExp).toNat ≤
+                (v.size.natAbs - 1) + (v.lowExp - min u.lowExp v.lowExp).toNat := by
+              unfold F.lowExp; omega
+            have h1 : val u.d * B ^ (u.lowExp - min u.lowExp v.lowExp).toNat <
+                val v.d * B ^ (v.lowExp - min u.lowExp v.lowExp).toNat := by
+              calc val u.d * B ^ (u.lowExp - min u.lowExp v.lowExp).toNat
+                  < B ^ u.size.natAbs * B ^ (u.lowExp - min u.lowExp v.lowExp).toNat := Nat.mul_lt_mul_of_pos_right u2 (Bpow_pos _)
+                _ = B ^ (u.size.natAbs + (u.lowExp - min u.lowExp v.lowExp).toNat) := by rw [pow_add]
+                _ ≤ B ^ ((v.size.natAbs - 1) + (v.lowExp - min u.lowExp v.lowExp).toNat) := pow_le_pow_B hexp
+                _ = B ^ (v.size.natAbs - 1) * B ^ (v.lowExp - min u.lowExp v.lowExp).toNat := by rw [pow_add]
+                _ ≤ val v.d * B ^ (v.lowExp - min u.lowExp v.lowExp).toNat := Nat.mul_le_mul_right _ hv1
+            have h2 : (val u.d : Int) * ((B ^ (u.lowExp - min u.lowExp v.lowExp).toNat : Nat) : Int)
+                - (val v.d : Int) * ((B ^ (v.lowExp - min u.lowExp v.lowExp).toNat : Nat) : Int) < 0 := by
+              have : ((val u.d * B ^ (u.lowExp - min u.lowExp v.lowExp).toNat : Nat) : Int) <
+                  ((val v.d * B ^ (v.lowExp - min u.lowExp v.lowExp).toNat : Nat) : Int) := by exact_mod_cast h1
+              push_cast at this ⊢; linarith
+            rw [sgn_neg h2]; ring
+          · rw [if_neg g2]
+            have hE : u.exp = v.exp := by omega
+            obtain ⟨su1, su2⟩ := stripLow_val u.d
+            obtain ⟨sv1, sv2⟩ := stripLow_val v.d
+            have hK1 : (stripLow u.d).length ≤ max u.d.length v.d.length := by omega
+            have hK2 : (stripLow v.d).length ≤ max u.d.length v.d.length := by omega
+            rw [mpf_cmp_limbs_spec _ _ (Limbs_stripLow hu.2.1) (Limbs_stripLow hv.2.1) (stripLow_headNZ _) (stripLow_headNZ _)
+              usign (max u.d.length v.d.length) hK1 hK2]
+            have ea : (u.lowExp - min u.lowExp v.lowExp).toNat = max u.d.length v.d.length - u.d.length := by
+              unfold F.lowExp; omega
+            have eb : (v.lowExp - min u.lowExp v.lowExp).toNat = max u.d.length v.d.length - v.d.length := by
+              unfold F.lowExp; omega
+            rw [ea, eb]
+            have pu : val u.d * B ^ (max u.d.length v.d.length - u.d.length) =
+                val (stripLow u.d) * B ^ (max u.d.length v.d.length - (stripLow u.d).length) := by
+              have : max u.d.length v.d.length - (stripLow u.d).length =
+                  (u.d.length - (stripLow u.d).length) + (max u.d.length v.d.length - u.d.length) := by omega
+              rw [this, pow_add]; conv_lhs => rw [su2]
+              ring
+            have pv : val v.d * B ^ (max u.d.length v.d.length - v.d.length) =
+                val (stripLow v.d) * B ^ (max u.d.length v.d.length - (stripLow v.d).length) := by
+              have : max u.d.length v.d.length - (stripLow v.d).length =
+                  (v.d.length - (stripLow v.d).length) + (max u.d.length v.d.length - v.d.length) := by omega
+              rw [this, pow_add]; conv_lhs => rw [sv2]
+              ring
+            have pu' : (val u.d : Int) * ((B ^ (max u.d.length v.d.length - u.d.length) : Nat) : Int) =
+                (val (stripLow u.d) : Int) * ((B ^ (max u.d.length v.d.length - (stripLow u.d).length) : Nat) : Int) := by
+              exact_mod_cast pu
+            have pv' : (val v.d : Int) * ((B ^ (max u.d.length v.d.length - v.d.length) : Nat) : Int) =
+                (val (stripLow v.d) : Int) * ((B ^ (max u.d.length v.d.length - (stripLow v.d).length) : Nat) : Int) := by
+              exact_mod_cast pv
+            rw [pu', pv']
+
+-- non-vacuity: 1.5 against 1.5 written with a low zero limb (equal); against 1.5 + B^-2 (less);
+-- different exponents; opposite signs; zero
+example : mpf_cmp ⟨2, 1, [2 ^ 63, 1]⟩ ⟨3, 1, [0, 2 ^ 63, 1]⟩ = 0 ∧ mpf_cmp ⟨2, 1, [2 ^ 63, 1]⟩ ⟨3, 1, [1, 2 ^ 63, 1]⟩ = -1 ∧
+    mpf_cmp ⟨-1, 2, [1]⟩ ⟨-1, 1, [7]⟩ = -1 ∧ mpf_cmp ⟨1, -5, [1]⟩ ⟨-1, 9, [1]⟩ = 1 ∧ mpf_cmp ⟨0, 0, []⟩ ⟨-1, 0, [1]⟩ = 1 := by decide
+
 end Mpir.Conv
